@@ -144,6 +144,7 @@ type FuncDecl struct {
 }
 
 type SpecDB struct {
+	Immutable map[string]bool // "pkgpath.Type|field": never stored to outside the allocating function
 	Funcs     map[string]*FuncDecl
 	Contracts map[string]*Contract // key: pkg + "::" + name
 	Preds     map[string]*PredDef  // key: name (global namespace; pkg kept for type resolution)
@@ -154,7 +155,7 @@ type SpecDB struct {
 }
 
 func newSpecDB() *SpecDB {
-	return &SpecDB{Contracts: map[string]*Contract{}, Preds: map[string]*PredDef{}, Funcs: map[string]*FuncDecl{}}
+	return &SpecDB{Contracts: map[string]*Contract{}, Preds: map[string]*PredDef{}, Funcs: map[string]*FuncDecl{}, Immutable: map[string]bool{}}
 }
 
 func (db *SpecDB) loadDir(root string, pattern string) error {
@@ -279,6 +280,16 @@ func (db *SpecDB) loadText(path, text, pkgHint string) error {
 				return fail(l.n, "pred %s: %v", name, err)
 			}
 			db.Preds[name] = &PredDef{Pkg: pkg, Name: name, Params: params, Body: body, Src: rest}
+			cur = nil
+		case "immutable":
+			for _, f := range strings.Split(rest, ",") {
+				f = strings.TrimSpace(f)
+				dot := strings.LastIndex(f, ".")
+				if dot < 0 {
+					return fail(l.n, "immutable Type.field")
+				}
+				db.Immutable["F|"+pkg+"."+f[:dot]+"|"+f[dot+1:]] = true
+			}
 			cur = nil
 		case "function":
 			// function name(a T, b U) sort      (uninterpreted)
